@@ -191,8 +191,25 @@ def r04_3(rep: Report) -> None:
         rep.fail(rid, f'{MP4}::Mp4Atom.__setattr__', 'field assignment invalidates',
                  'assigning a field does not invalidate the cached encoding', sa)
     us = need(find_func(cls, 'update_size'), 'Mp4Atom.update_size')
-    t = norm(us)
-    if 'self.size += delta' in t and 'self.parent.update_size(delta)' in t and 'ch.position += delta' in t:
+    from ..core import subst_locals
+    dname = us.args.args[1].arg if len(us.args.args) > 1 else 'delta'
+    grows = any(isinstance(n, ast.AugAssign) and isinstance(n.op, ast.Add) and norm(n.target) == 'self.size'
+                and norm(n.value) == dname for n in ast.walk(us))
+    recurses = any(isinstance(n, ast.Call) and isinstance(n.func, ast.Attribute) and n.func.attr == 'update_size'
+                   and norm(subst_locals(us, n.func.value)) == 'self.parent'
+                   and n.args and norm(n.args[0]) == dname for n in ast.walk(us))
+    shifts = False
+    for n in ast.walk(us):
+        if isinstance(n, ast.For) and isinstance(n.target, ast.Name):
+            it = subst_locals(us, n.iter, allow_calls=True)
+            sl = it if isinstance(it, ast.Subscript) and isinstance(it.slice, ast.Slice) else None
+            if sl is not None and norm(sl.value) == 'self.parent._children' and sl.slice.lower is not None \
+                    and sl.slice.upper is None and norm(sl.slice.lower).endswith('+ 1') \
+                    and any(isinstance(b, ast.AugAssign) and isinstance(b.op, ast.Add)
+                            and norm(b.target) == f'{n.target.id}.position' and norm(b.value) == dname
+                            for b in ast.walk(n)):
+                shifts = True
+    if grows and recurses and shifts:
         rep.ok(rid, f'{MP4}::Mp4Atom.update_size', 'propagates to parent and following siblings')
     else:
         rep.fail(rid, f'{MP4}::Mp4Atom.update_size', 'propagates to parent and following siblings',
